@@ -446,6 +446,17 @@ func (pConn *PFCPConn) handleSessionModificationRequest(msg message.Message) (me
 		logger.PfcpLog.Errorf("failed to put PFCP session to store: %v", err)
 	}
 
+	// The removed PDRs are gone from the datapath and from the session: return
+	// the tunnel endpoint IDs the UPF had chosen for them (RemoveSession only
+	// sees the PDRs the session still has when it ends)
+	if upf.fteidGenerator != nil {
+		for _, p := range delPDRs {
+			if p.UPAllocateFteid {
+				upf.fteidGenerator.FreeID(p.tunnelTEID)
+			}
+		}
+	}
+
 	// Build response message
 	smres := message.NewSessionModificationResponse(0, /* MO?? <-- what's this */
 		0,                                    /* FO <-- what's this? */
